@@ -19,6 +19,8 @@ Families
             generic for / parameter list): operand fields must not wrap
   manytargets one multiple assignment with 100..2000 targets fed by '...', a call, one value or N values
   constobj  constants in object / callee / operand positions, behind 0..260 other constants
+  gotoclose a goto leaves a block whose local is captured by a closure created before and/or after
+            the goto statement (block kind x goto form x preceding instruction x label position)
   vararg    vararg functions with 0..8 named parameters whose body only reads the implicit 'arg'
             local (R(NumParameters)) or never touches it
 """
@@ -919,6 +921,72 @@ def constobj_cases(full):
 
 
 # --------------------------------------------------------------------------
+# gotoclose: a goto leaves a block whose local is captured by a closure - created before and/or
+# textually AFTER the goto statement (the CLOSE the jump needs is only known at resolution time)
+
+GC_BLOCKS = {
+    "do": ("do\n", "end\n"), "while": ("while a do\n", "end\n"), "numfor": ("for i = 1, 3 do\n", "end\n"),
+    "genfor": ("for k, w in pairs(t) do\n", "end\n"), "repeat": ("repeat\n", "until a\n"), "if": ("if a then\n", "end\n"),
+    "else": ("if a then b = 1 else\n", "end\n"), "func": ("local function inner()\n", "end\n"),
+}
+GC_GOTOS = {"bare": "goto L\n", "if": "if p then goto L end\n", "ifelse": "if p then b = 1 else goto L end\n",
+            "nested": "do goto L end\n", "nested_if": "do if p then goto L end end\n",
+            "loop": "while p do goto L end\n", "not": "if not p then goto L end\n", "cmp": "if p == 1 then goto L end\n"}
+# what stands right in front of the goto statement (the word before its JMP)
+GC_BEFORE = {"none": "", "upclosure": "h = function() return u end\n", "move": "b = a\n", "call": "f(a)\n",
+             "if": "if a then b = 1 end\n", "setlist": "b = {1, 2, 3}\n", "xclosure": "h = function() return x end\n"}
+
+
+def gotoclose_source(block, gform, before, closure_pos, decl, label_pos):
+    """closure_pos: before / after / both (relative to the goto); decl: the captured local is declared
+    before or after the goto; label_pos: same (last statement of the block) or outer (behind the block)"""
+    pre, post = GC_BLOCKS[block]
+    cap = "g = function() return x end\n"
+    body = ""
+    if decl == "before":
+        body += "local x = 1\n"
+        if closure_pos in ("before", "both"):
+            body += cap
+        body += GC_BEFORE[before] if before != "xclosure" else cap
+        body += GC_GOTOS[gform]
+        if closure_pos in ("after", "both"):
+            body += "g2 = function() return x end\n"
+        body += "b = 2\n"
+    else:
+        body += (GC_BEFORE[before] if before != "xclosure" else "") + GC_GOTOS[gform]
+        body += "local x = 1\n" + cap + "b = 2\n"
+    if label_pos == "same":
+        body += "::L::\n"
+        tail = ""
+    else:
+        tail = "::L::\n"
+    return ("local t, u = {}, 5\nlocal function w(p, a, b)\nlocal h\n" + pre + body + post + tail + "return b, h\nend\nreturn w\n")
+
+
+def gotoclose_cases(full):
+    out = []
+    i = 0
+    for block in GC_BLOCKS:
+        for gform in GC_GOTOS:
+            for before in GC_BEFORE:
+                for cpos in ("before", "after", "both"):
+                    for decl in ("before", "after"):
+                        for lpos in ("same", "outer"):
+                            if decl == "after" and cpos != "after":
+                                continue
+                            if block == "func" and lpos == "outer":
+                                continue        # a goto cannot leave a function
+                            if before == "xclosure" and decl == "after":
+                                continue
+                            i += 1
+                            if not full and i % 4 != (len(block) + len(gform)) % 4:
+                                continue
+                            out.append(("gotoclose", "%s/%s/%s/%s/%s/%s" % (block, gform, before, cpos, decl, lpos),
+                                        {"block": block, "gform": gform, "before": before, "cpos": cpos, "decl": decl, "lpos": lpos}))
+    return out
+
+
+# --------------------------------------------------------------------------
 # rand: random compositions of the statement kinds (nesting, long bodies)
 
 def rand_source(seed, size):
@@ -964,6 +1032,7 @@ def cases(tier, seed):
     out += vararg_cases(full)
     out += manylocals_cases(full)
     out += manytargets_cases(full)
+    out += gotoclose_cases(full)
     out += constobj_cases(full)
     for i in range(1500 if full else 150):
         out.append(("rand", "%d" % i, {"seed": seed * 100000 + i, "size": rng.choice([3, 6, 12, 25])}))
@@ -987,6 +1056,8 @@ def source(fam, params):
         return longjump_source(params["kind"], params["n"])
     if fam == "upvals":
         return upvals_source(params["n1"], params["n2"], params["n3"], params["mode"])
+    if fam == "gotoclose":
+        return gotoclose_source(params["block"], params["gform"], params["before"], params["cpos"], params["decl"], params["lpos"])
     if fam == "manytargets":
         return manytargets_source(params["n"], params["target"], params["source"], params["nlocals"])
     if fam == "constobj":
